@@ -215,6 +215,26 @@ func hasConfig(fn string) bool {
 	return !hasT(fn) && fn != "doerner.Keygen"
 }
 
+func largest(ids []party.ID) party.ID {
+	var m party.ID
+	for _, id := range ids {
+		if id > m {
+			m = id
+		}
+	}
+	return m
+}
+
+func smallest(ids []party.ID) party.ID {
+	m := largest(ids)
+	for _, id := range ids {
+		if id < m {
+			m = id
+		}
+	}
+	return m
+}
+
 func setThreshold(fn string, p *params, t int) {
 	p.t = t
 	if p.cmp != nil {
@@ -236,6 +256,8 @@ var bads = []bad{
 	{"t=2^32", true, func(fn string) bool { return !twoParty(fn) }, func(fn string, p *params) { setThreshold(fn, p, 1<<32) }},
 	{"ids-dup-other", true, hasIDs, func(fn string, p *params) { p.ids = append(p.ids, otherOf(p.ids, p.self)) }},
 	{"ids-dup-self", true, hasIDs, func(fn string, p *params) { p.ids = append(p.ids, p.self) }},
+	{"ids-dup-largest", true, hasIDs, func(fn string, p *params) { p.ids = append(p.ids, largest(p.ids)) }},
+	{"ids-dup-smallest-first", true, hasIDs, func(fn string, p *params) { p.ids = append([]party.ID{smallest(p.ids)}, p.ids...) }},
 	{"ids-self-missing", false, hasIDs, func(fn string, p *params) { p.ids = without(p.ids, p.self) }},
 	{"ids-empty", true, hasIDs, func(fn string, p *params) { p.ids = []party.ID{} }},
 	{"ids-nil", true, hasIDs, func(fn string, p *params) { p.ids = nil }},
@@ -247,6 +269,7 @@ var bads = []bad{
 	{"signers-too-few", true, hasSigners, func(fn string, p *params) { p.signers = []party.ID{p.self} }},
 	{"signers-non-shareholder", true, hasSigners, func(fn string, p *params) { p.signers = append(p.signers, "zz") }},
 	{"signers-dup", true, hasSigners, func(fn string, p *params) { p.signers = append(p.signers, otherOf(p.signers, p.self)) }},
+	{"signers-dup-largest", true, hasSigners, func(fn string, p *params) { p.signers = append(p.signers, largest(p.signers)) }},
 	{"signers-self-missing", false, hasSigners, func(fn string, p *params) { p.signers = without(p.signers, p.self) }},
 	{"signers-empty", true, hasSigners, func(fn string, p *params) { p.signers = []party.ID{} }},
 	{"signers-nil", true, hasSigners, func(fn string, p *params) { p.signers = nil }},
